@@ -562,6 +562,38 @@ def c20(pid, tier, seed, workdir):
         total_runs += len(recs) - 1
         samples = samples or recs[:2] + [x for x in recs if x.get("k") == "bisect"]
         log("[ladder] profile=%s %s" % (profile, json.dumps(per[profile])))
+    # C20 x C18 (ConcDrop.tla): the last handles of a long list released by 8 threads at once; the stack depth
+    # reached while releasing nodes is measured through probe elements
+    import vcheck as _vc
+    conc = {}
+    for cname in ("concdrop_ok", "concdrop_bad"):
+        rcd = tlc_mc("ConcDrop.tla", "mc/MC_%s.cfg" % cname, workers=2, timeout=300, name=cname)
+        if cname == "concdrop_ok":
+            expect_mc_ok(rcd)
+            conc["into_inner_states"] = rcd["distinct"]
+        elif "Invariant C20_Bounded is violated" not in rcd["out"]:
+            raise ToolError("ConcDrop.tla: the try_unwrap discipline is expected to violate C20_Bounded:\n" + rcd["out"][-1000:])
+    crate = os.path.join(_vc.VERIF, "autotraits")
+    rcb, ob = sh(["cargo", "build", "--offline", "--release"], 1200, env=_vc.cargo_env(), cwd=crate)
+    if rcb != 0:
+        conc["probe"] = "not run: the thread-using client crate does not build against this tree (see C18)"
+    else:
+        cdo = os.path.join(workdir, "cdrop.ndjson")
+        rcc, oc = sh([os.path.join(crate, "target", "release", "dropdepth"), cdo, "300" if tier == "quick" else "3000"], 1800)
+        if rcc != 0:
+            rec = json.dumps({"k": "cdrop", "n": 4000, "holders": 8, "rounds": 0, "seqdepth": 0, "maxdepth": -1, "status": "aborted rc=%s" % rcc})
+            raise Violation(pid, _write_replay(pid, seed, "cdrop", [rec]), "process aborted while 8 threads released the last handles of a long list (rc=%s)" % rcc)
+        v = validate_trace(cdo, pid, cfg="Probe.cfg", module="DropTrace.tla")
+        fails = []
+        if not v["accepted"]:
+            lines = _vc.read_events(cdo)
+            for (p_, ln, what) in v["fails"]:
+                fails.append((int(ln), what, lines[int(ln) - 1].strip()))
+            if not fails:
+                raise ToolError("DropTrace rejected the concurrent-drop records without naming one:\n" + v["out"][-1000:])
+        findings += report_probe_fails(pid, fails, seed, "cdrop", lambda rec: "concurrent drop " + rec[:60])
+        conc["probe"] = [json.loads(x) for x in _vc.read_events(cdo)][:2]
+        log("[cdrop] %s" % json.dumps(conc["probe"]))
     # beyond the listed properties: linked_list.rs against its sequential meaning (observation only)
     extra = {}
     try:
@@ -574,6 +606,7 @@ def c20(pid, tier, seed, workdir):
         extra = {"linked_list_conformance": "not evaluated: %s" % str(te)[:100]}
     cov = {
         "beyond_properties": extra,
+        "concurrent_drop": conc,
         "states": loop["distinct"] + glue["distinct"], "transitions": loop["generated"] + glue["generated"],
         "traces_validated_against_impl": 1 + 2,
         "evaluations": total_runs + r["lines"], "distinct_nontrivial": total_runs,
